@@ -2,7 +2,7 @@
 import json, os
 import vlib
 
-FIELDS = dict(t="", s="", mode="", unique=False, ok=False, op="", k=0, v="", n=0, items=[], exists=False, count=0, opts="")
+FIELDS = dict(t="", s="", mode="", unique=False, ok=False, op="", k=0, v="", n=0, items=[], exists=False, count=0, opts="", ms=0, budget=0)
 
 
 def norm(ev):
